@@ -82,6 +82,24 @@ class HTTPProxyConnectionPool(ConnectionPool):
 
         _logger.debug('Request for proxy connection.')
 
+        try:
+            proxy_connection = yield from self._prepare_connection(
+                connection, host, port, use_ssl, tunnel)
+        except BaseException:
+            # Connecting, the tunnel or TLS failed or was cancelled: the
+            # caller never sees the connection and cannot check it in.
+            connection.close()
+            self.no_wait_release(connection)
+            raise
+
+        return proxy_connection
+
+    @asyncio.coroutine
+    def _prepare_connection(self, connection, host, port, use_ssl, tunnel):
+        '''Connect to the proxy and set up the tunnel if needed.
+
+        Coroutine.
+        '''
         if connection.closed():
             _logger.debug('Connecting to proxy.')
             yield from connection.connect()
